@@ -431,7 +431,8 @@ def atoms_text():
     if not m:
         raise R.Unsupported("the successor rule of the automatic zoom sizes not found")
     emit("zl_factor", [], N, ("int", m.group(1)))
-    return ("/-! GENERATED by tools/extract_consts.py (tools/rs2lean.py) from /repo's working tree — do not edit.\n"
+    return ("import BigtoolsModel.FloatRound\n"
+            "/-! GENERATED by tools/extract_consts.py (tools/rs2lean.py) from /repo's working tree — do not edit.\n"
             "    The arithmetic and branch conditions of the zoom tilers, the coverage sweeps, the section cut and the\n"
             "    variable-step and fixed-step decoders, of FileView's read and seek, of the chromosome bisection and of the size-based chunker, each translated from the expression in the Rust source. -/\nnamespace Gen\n\n"
             "/-- the named constants of `f64` that running extrema start from (floats themselves are not modelled) -/\n"
@@ -468,7 +469,9 @@ def atoms():
         tmp = os.path.join(td, "Atoms.lean")
         open(tmp, "w", encoding="utf-8").write(text)
         try:
-            ok = subprocess.run(["lean", tmp], capture_output=True, timeout=120).returncode == 0
+            leandir = os.path.join(os.path.dirname(os.path.dirname(os.path.abspath(__file__))), "lean")
+            subprocess.run(["lake", "build", "BigtoolsModel.FloatRound"], cwd=leandir, capture_output=True, timeout=300)
+            ok = subprocess.run(["lake", "env", "lean", tmp], cwd=leandir, capture_output=True, timeout=120).returncode == 0
         except Exception:                           # noqa
             ok = False
     if not ok:
